@@ -59,7 +59,7 @@ def gen_config(rng):
         pw = []
         for _ in range(rng.choice([0, 1, 1, 2, 2, 3])):
             p = rng.choice(PASSWORDS + ["disable", "disable", "none", "none", "Disable", "NONE"])
-            pool = SAFE + PROT_HARMLESS * 3 + DESTRUCTIVE * 2 + ["all", "nosuch", "index"]
+            pool = SAFE + PROT_HARMLESS * 3 + DESTRUCTIVE * 2 + ["all", "all", "all", "nosuch", "index"]
             acts = rng.sample(pool, rng.randrange(1, 5))
             acts = list(dict.fromkeys(acts))
             pw.append([p, acts])
